@@ -718,7 +718,7 @@ def w_fuzzer(ck, runs, jobs=8):
     for name, b in seeds(ck):
         common.write_bytes(os.path.join(corp, "seed_" + name), b)
     cmd = [fz["fuzzer"], corp, "-runs=%d" % runs, "-max_len=4096", "-timeout=20", "-rss_limit_mb=3000", "-artifact_prefix=%s/" % art,
-           "-jobs=%d" % jobs, "-workers=%d" % jobs, "-print_final_stats=1", "-use_value_profile=1"]
+           "-jobs=%d" % jobs, "-workers=%d" % jobs, "-print_final_stats=1", "-use_value_profile=1", "-close_fd_mask=1"]
     env = {"ASAN_OPTIONS": "detect_leaks=0:allocator_may_return_null=1:quarantine_size_mb=8:exitcode=%d" % common.ASAN_EXIT, "KFUZZ_TMP": work}
     r = common.run_proc(cmd, env=env, timeout=6 * 3600, cpu=40 * 3600, cwd=work)
     cov = 0
@@ -760,7 +760,7 @@ def run(ck, tier):
     w_perturb(ck, rel, int(npert * sc))
     w_memcheck(ck, rel, int(nmem * sc))
     if tier == "thorough":
-        w_fuzzer(ck, int(400000 * sc))
+        w_fuzzer(ck, int(2500 * sc), jobs=12)
     ck.rule = ("one process per input through the real CLI built with ASan+UBSan(+LSan): fixed regression corpus (witnesses of repaired defects, buffer boundaries 511/512/513/1023/"
                "1024/1025 residues and records, > 1024/1536 input and > 1024/2048 output lines, names of 255..5000 characters, 1 MB line, empty / header-only / residue-only files, "
                "header-less and over-full MSF/Clustal blocks), structure-aware mutations of valid FASTA/MSF/Clustal files and grammar-generated near-valid files, option fuzzing, "
